@@ -301,6 +301,79 @@ BP('C13', 'rf3-c13-3', 'rf3-c13-3.diff',
 BP('C13', 'rf3-c13-4', 'rf3-c13-4.diff',
    'independent refactoring of code changed by a fix: commit (F12-F16): BlockRangeImporter (block_ranges_importer.rs): (a) the duplicated `match store.get_highest_*_block_range().await?.map(..) { None => .., Some(r) if r.is_empty() => return Ok(()), Some(r) => r }` at the top of `run` and `run_legacy` is extracted into a private ass')
 
+BP('C02', 'rf3-c02-1', 'rf3-c02-1.diff',
+   'independent refactoring focused on the code the second-round rules anchor in: ConcatenationClerk::select_valid_signatures_for_k_indices: the verify-and-merge loop (drop invalid single signatures, keep one entry per signature holding the union of the indices of all its verified copies) is extracted into a new private helper `merg')
+BP('C02', 'rf3-c02-2', 'rf3-c02-2.diff',
+   'independent refactoring focused on the code the second-round rules anchor in: ConcatenationClerk::select_valid_signatures_for_k_indices: the contest loop (per-index winner = smallest sigma, per-signature list of lost indices) is extracted into a new private helper `settle_index_contests(&valid_sigs) -> (sig_by_index, removal_idx')
+BP('C02', 'rf3-c02-3', 'rf3-c02-3.diff',
+   'independent refactoring focused on the code the second-round rules anchor in: ConcatenationClerk::select_valid_signatures_for_k_indices: final collection loop. The `clone the winner and strip the indices it lost` step is extracted into a new private helper `without_lost_indices(sig_reg, Option<&Vec<LotteryIndex>>)` which uses `V')
+BP('C02', 'rf3-c02-4', 'rf3-c02-4.diff',
+   'independent refactoring focused on the code the second-round rules anchor in: mithril-common MultiSigner::aggregate_single_signatures: (1) the iterator chain converting entities::SingleSignature to protocol signatures is moved to a new private associated function `MultiSigner::to_protocol_signatures` written as a for loop over a')
+BP('C06', 'rf3-c06-1', 'rf3-c06-1.diff',
+   'independent refactoring focused on the code the second-round rules anchor in: mithril-signer MithrilEpochService::associate_signers_with_stake: the `for` loop that pushed into a mutable Vec is rewritten as `signers.iter().map(..).collect::<StdResult<Vec<_>>>()`, and the hand-written field-by-field construction of SignerWithStake')
+BP('C06', 'rf3-c06-2', 'rf3-c06-2.diff',
+   'independent refactoring focused on the code the second-round rules anchor in: mithril-signer MithrilEpochService::current_signers_with_stake / next_signers_with_stake: the two trait accessors `self.epoch_of_current_data()?` and `self.current_signers()?` / `self.next_signers()?` are inlined into a single `let data = self.unwrap_d')
+BP('C06', 'rf3-c06-3', 'rf3-c06-3.diff',
+   'independent refactoring focused on the code the second-round rules anchor in: mithril-signer MithrilEpochService::inform_epoch_settings: the owned `mithril_network_configuration` argument is destructured (`let MithrilNetworkConfiguration { configuration_for_aggregation, configuration_for_registration, .. } = ...`) and its parts ')
+BP('C06', 'rf3-c06-4', 'rf3-c06-4.diff',
+   'independent refactoring focused on the code the second-round rules anchor in: mithril-aggregator MithrilStakeDistributionArtifactBuilder::compute_artifact: the next-epoch signer list is bound to a named local (`next_signers_with_stake`, copied with `.to_vec()` instead of `.clone()` on the `&Vec`), `protocol_parameters` is rename')
+BP('C08', 'rf3-c08-1', 'rf3-c08-1.diff',
+   'independent refactoring focused on the code the second-round rules anchor in: ClosedKeyRegistration::get_signer_index_for_registration: the iterator chain `.iter().position(|r| r == entry).map(|s| s as u64)` is rewritten as an explicit `for (position, registered_entry) in ...iter().enumerate()` loop with an early `return Some(po')
+BP('C08', 'rf3-c08-2', 'rf3-c08-2.diff',
+   'independent refactoring focused on the code the second-round rules anchor in: ClosedKeyRegistration::get_registration_entry_for_index: the chain `.iter().nth(*signer_index as usize).cloned().ok_or_else(|| RegisterError::UnregisteredIndex.into())` is rewritten with an intermediate `entry_position` variable, a `let Some(registered')
+BP('C08', 'rf3-c08-3', 'rf3-c08-3.diff',
+   'independent refactoring focused on the code the second-round rules anchor in: Initializer::try_create_signer: (a) the nested expression that converts the registration entry into a ClosedRegistrationEntry (`(entry, total_stake, phi_f).try_into()?`), looks it up with get_signer_index_for_registration and maps a miss to RegisterErr')
+BP('C08', 'rf3-c08-4', 'rf3-c08-4.diff',
+   'independent refactoring focused on the code the second-round rules anchor in: ConcatenationProof::aggregate_signatures (direct caller of ClosedKeyRegistration::get_registration_entry_for_index): the `sigs.iter().map(|sig| lookup.map(|reg_party| ...)).collect::<Result<Vec<_>, _>>()?` chain that pairs every single signature with t')
+BP('C09', 'rf3-c09-1', 'rf3-c09-1.diff',
+   'independent refactoring focused on the code the second-round rules anchor in: internal/mithril-merkle-tree/src/merkle_tree.rs: MKProof::verify no longer inlines the duplicated-leaf-position guard; it is extracted into a new private method MKProof::check_leaf_positions_are_listed_once (iterator `.all(insert)` rewritten as a for l')
+BP('C09', 'rf3-c09-2', 'rf3-c09-2.diff',
+   'independent refactoring focused on the code the second-round rules anchor in: internal/mithril-merkle-tree/src/merkle_map.rs: MKMapProof::verify is split. The loop that verifies the sub proofs moves to a new private method verify_sub_proofs (for loop + `?` rewritten as `iter().try_for_each`), the computation of the (key + sub-pr')
+BP('C09', 'rf3-c09-3', 'rf3-c09-3.diff',
+   'independent refactoring focused on the code the second-round rules anchor in: internal/mithril-merkle-tree/src/merkle_map.rs: the nesting guard of `impl Deserialize for MKMapProof<K>` is reshaped. The items that were local to the `deserialize` function body (const MAX_NESTED_LEVELS, the thread-local NESTED_LEVELS counter, the Ne')
+BP('C09', 'rf3-c09-4', 'rf3-c09-4.diff',
+   'independent refactoring focused on the code the second-round rules anchor in: mithril-stm/src/membership_commitment/merkle_tree/commitment.rs: MerkleTreeBatchCommitment::verify_leaves_membership_from_batch_path is split and tidied. (a) The two guards (one index per value; indices sorted) are merged into one condition (`!(len_ok ')
+BP('C12', 'rf3-c12-1', 'rf3-c12-1.diff',
+   'independent refactoring focused on the code the second-round rules anchor in: list_immutable_files_to_process no longer lists+filters itself: it delegates to list_immutable_files_to_process_for_range with the range ImmutableFileNumber::MIN..=up_to_file_number, and the 3-arm `match immutables.last()` (None / Some if number < beac')
+BP('C12', 'rf3-c12-2', 'rf3-c12-2.diff',
+   'independent refactoring focused on the code the second-round rules anchor in: fetch_immutables_cached: the nested `match cache_provider { None => .., Some(p) => match p.get(..).await { Ok => .., Err => .. } }` is flattened into a let-else early return for the no-cache case followed by `cache_lookup.unwrap_or_else(|error| { warn!')
+BP('C12', 'rf3-c12-3', 'rf3-c12-3.diff',
+   'independent refactoring focused on the code the second-round rules anchor in: update_cache: `if let Some(cache_provider) = .. { .. }` becomes a let-else early return, and the selection of the (file name, digest) pairs to persist (entries whose file name is listed in new_cached_entries) is moved out of CardanoImmutableDigester::u')
+BP('C12', 'rf3-c12-4', 'rf3-c12-4.diff',
+   'independent refactoring focused on the code the second-round rules anchor in: The `self.update_cache(&computed).await` step that both compute_merkle_tree and compute_digests_for_range performed right after `self.process_immutables(..).await?` is moved into the callee, which is renamed compute_and_cache_digests (private). Inside ')
+BP('C16', 'rf3-c16-1', 'rf3-c16-1.diff',
+   'independent refactoring focused on the code the second-round rules anchor in: mithril-common MultiSigner::verify_single_signature: the check that binds the party label to the key slot embedded in the signature is extracted into a new private helper `ensure_key_is_the_one_registered_by(party_id, signing_key)` written as a `match`')
+BP('C16', 'rf3-c16-2', 'rf3-c16-2.diff',
+   'independent refactoring focused on the code the second-round rules anchor in: mithril-aggregator MithrilCertifierService::register_single_signature is split: the `already certified` / `expired` gate moves into a new private method `ensure_open_message_still_accepts_signatures`, and the signature verification + mapping of the fai')
+BP('C16', 'rf3-c16-3', 'rf3-c16-3.diff',
+   'independent refactoring focused on the code the second-round rules anchor in: mithril-aggregator MithrilCertifierService::create_certificate: the computation of the certificate`s signer list (metadata.signers) is extracted into a new private free function `select_signers_of_open_message(registered_signers: &[SignerWithStake], op')
+BP('C16', 'rf3-c16-4', 'rf3-c16-4.diff',
+   'independent refactoring focused on the code the second-round rules anchor in: mithril-aggregator MultiSignerImpl (the direct callee of register_single_signature and the only production caller of mithril-common MultiSigner::verify_single_signature): the two trait methods `verify_single_signature` and `verify_single_signature_for_')
+BP('C18', 'rf3-c18-1', 'rf3-c18-1.diff',
+   'independent refactoring focused on the code the second-round rules anchor in: ResourcePool::give_back_resource: the two early-return guards (pool full / stale discriminant) are merged into one positive admission condition `has_room && discriminant == self.discriminant()?` guarding push_back + notify_one; comparisons are flipped ')
+BP('C18', 'rf3-c18-2', 'rf3-c18-2.diff',
+   'independent refactoring focused on the code the second-round rules anchor in: ResourcePool::acquire_resource: the `while resources.is_empty() { wait } ... pop_front().unwrap()` shape is rewritten as `loop { if let Some((discriminant, resource)) = resources.pop_front() { return Ok(item) } resources = self.wait_for_resource(resour')
+BP('C18', 'rf3-c18-3', 'rf3-c18-3.diff',
+   'independent refactoring focused on the code the second-round rules anchor in: MithrilProverService::compute_cache (prover.rs): the pool refresh step (log `Draining`, compute discriminant_new = discriminant()? + 1, set_discriminant, clear, log `Giving back`, refill) is extracted into a new private inherent method `replace_mk_map_')
+BP('C18', 'rf3-c18-4', 'rf3-c18-4.diff',
+   'independent refactoring focused on the code the second-round rules anchor in: LegacyMithrilProverService (prover_legacy.rs): (a) in compute_transactions_proofs the `acquire a Merkle map from the pool and replace its block range leaves` steps are extracted into a new private method `acquire_mk_map_enriched_with(&self, mk_trees) -')
+BP('C19', 'rf3-c19-1', 'rf3-c19-1.diff',
+   'independent refactoring focused on the code the second-round rules anchor in: InternalArtifactDownloader::download_unpack is split: the construction of the task queue (immutable tasks, then the optional ancillary task, with the two warnings) moves to a new private helper build_download_tasks, and the `run the batch, always remov')
+BP('C19', 'rf3-c19-2', 'rf3-c19-2.diff',
+   'independent refactoring focused on the code the second-round rules anchor in: InternalArtifactDownloader::batch_download_unpack is rewritten: the duplicated `join_set.spawn(task.build_download_future(self.logger.clone()))` is extracted into a private method spawn_download; the `while let Some(result) = join_next().await { if let')
+BP('C19', 'rf3-c19-3', 'rf3-c19-3.diff',
+   'independent refactoring focused on the code the second-round rules anchor in: HttpFileDownloader::unpack_file is split per archive shape: the duplicated `Archive::new(decoder).unpack(unpack_dir) with context` of the Gzip and Zstandard arms is extracted into a generic private helper unpack_tar_archive<R: Read>(decompressed_input,')
+BP('C19', 'rf3-c19-4', 'rf3-c19-4.diff',
+   'independent refactoring focused on the code the second-round rules anchor in: AncillaryFilesManifest::verify_data now delegates the per-entry work to a new private async helper verify_file_hash(file_path, expected_hash) (compute hash, map the failure to HashCompute, compare, build FileHashMismatch); inside it `.map_err(..)?` is ')
+BP('C20', 'rf3-c20-1', 'rf3-c20-1.diff',
+   'independent refactoring focused on the code the second-round rules anchor in: SignerSignableSeedBuilder: the block `offset current epoch to the next signer retrieval epoch -> fetch the protocol initializer from the store -> fail with "can not get protocol_initializer at epoch N" when absent`, which was copy-pasted in compute_nex')
+BP('C20', 'rf3-c20-2', 'rf3-c20-2.diff',
+   'independent refactoring focused on the code the second-round rules anchor in: SignerRunner::register_signer_to_aggregator: (a) the reading/decoding of the operational certificate file is extracted into a new private, non-trait helper SignerRunner::read_operational_certificate(&self) -> StdResult<Option<OpCert>> (written with let')
+BP('C20', 'rf3-c20-3', 'rf3-c20-3.diff',
+   'independent refactoring focused on the code the second-round rules anchor in: StateMachine::cycle_ready_to_sign: the two nested `match`es are flattened. The outer match on has_epoch_changed() now binds the current time point and returns early in the NewEpoch arm; the inner `match beacon_to_sign { Some(..) => .., None => .. }` be')
+BP('C20', 'rf3-c20-4', 'rf3-c20-4.diff',
+   'independent refactoring focused on the code the second-round rules anchor in: SignerCertifierService::get_beacon_to_sign (the only callee of SignerRunner::get_beacon_to_sign): the `if list.is_empty() { Ok(None) } else { let t = list[0].clone(); Ok(Some(BeaconToSign::new(..))) }` shape is replaced by taking the first element of t')
+
 
 # ---- the independent refactorings of one property applied TOGETHER (interactions between rewritten helpers)
 def _combos():
